@@ -120,6 +120,11 @@ func parseAndRun(src string) {
 	uncaught := 0
 	vm.SetThrowControl(func(acl data.Control) { uncaught++ })
 	data.WriteOutput = func(string) {}
+	// recorded finding family: a missing operand/clause is accepted by the parser and an
+	// evaluator then calls a method on the nil child (one known-findings line per call site).
+	// Registered before parsing: initialisers of class constants and static properties are
+	// evaluated while the class is being parsed.
+	symx.KnownPanic("C01-nil-operand@", "nil@", true)
 	prog, ctl := p.ParseString(src, "t.zy")
 	symx.Reach("parsed")
 	symx.Assert((prog != nil && ctl == nil) || ctl != nil, "program-or-diagnostic")
@@ -132,9 +137,6 @@ func parseAndRun(src string) {
 	// the run gets a soft budget; only a Go panic is a violation here
 	symx.SoftFuel(300000)
 	symx.SoftOpaque(true)
-	// recorded finding family: a missing operand/clause is accepted by the parser and the
-	// evaluator then calls a method on the nil child (one known-findings line per call site)
-	symx.KnownPanic("C01-nil-operand@", "nil@", true)
 	ctx := vm.CreateContext(p.GetVariables())
 	_, rctl := prog.GetValue(ctx)
 	_ = rctl
